@@ -19,7 +19,7 @@ import os
 import vlib
 
 REAL_MB = 20010
-KEEP = {"Cfg", "Call", "Ret", "Tick", "Minute", "Fill", "MailReject", "Snap", "Quiesced", "Yield", "Resume"}
+KEEP = {"Cfg", "Call", "Ret", "Tick", "Minute", "Fill", "MailReject", "Snap", "Quiesced", "Yield", "Resume", "NestedMail"}
 
 CFG = """SPECIFICATION %(spec)s
 CONSTANTS
@@ -349,10 +349,16 @@ def run(ctx, replay):
                         if st["a"] == "End":
                             st["how"] = ctx.rng.choice(["abort", "commit", "datafail", "drop", "rsetfail"])
             if k == "gen-endpoint":
+                nest = [b for b in got if any(s["a"] == "NestedMail" for s in b["hist"])]
+                pick = vlib.sample(ctx.rng, nest, n // 2)
+                pick += vlib.sample(ctx.rng, [b for b in got if not any(b is x for x in pick)], n - len(pick))
                 for b in pick:
                     b["level"] = "endpoint"
                     b["defer"] = ctx.rng.random() < 0.5
                     for st in b["hist"]:
+                        if st["a"] == "NestedMail":
+                            st["null"] = ctx.rng.random() < 0.25     # MAIL FROM:<>
+                            st["raw"] = ctx.rng.random() < 0.3
                         if st["a"] == "TakeMsg":
                             st["raw"] = ctx.rng.random() < 0.3
                             st["how"] = ctx.rng.choice(["reset", "logout", "data", "datafail"])
